@@ -318,8 +318,8 @@ def get_automatic_batch_size(eval_fn, start_batch_size=8192, max_batch_size=4096
     effective_ratio = 1
 
     if hasattr(eval_fn, "num_starts"):
-        batch_size = batch_size // (eval_fn.num_starts // 10)
-        effective_ratio *= eval_fn.num_starts // 10
+        batch_size = batch_size // max(1, eval_fn.num_starts // 10)
+        effective_ratio *= max(1, eval_fn.num_starts // 10)
     if hasattr(eval_fn, "num_augment"):
         batch_size = batch_size // eval_fn.num_augment
         effective_ratio *= eval_fn.num_augment
